@@ -585,9 +585,11 @@ pub proof fn lemma_find_name(m: Seq<(Seq<u8>, Entry)>, k: Seq<u8>)
 }
 
 // ================= printing (C10) =================
-/// decimal text of a u64 as printed by `{}` (assumed to re-parse to the same value)
-pub uninterp spec fn u64_text(n: int) -> Seq<char>;
-pub axiom fn axiom_u64_text(n: u64) ensures u64_text_value(u64_text(n as int)) == Some(n as int), is_ascii_chars(u64_text(n as int));
+/// decimal text of a u64 as printed by `{}`: its digits, no leading zeros (int_text, std_str.rs)
+pub open spec fn u64_text(n: int) -> Seq<char> { int_text(n) }
+/// ... which u64::from_str reads back as the same number (proved: lemma_int_text_u64)
+pub proof fn lemma_u64_text_value(n: u64) ensures u64_text_value(u64_text(n as int)) == Some(n as int), is_ascii_chars(u64_text(n as int))
+{ lemma_int_text_u64(n); }
 // shims D8.format_*: format!(..).as_bytes() with `{}` = Display of the argument (Digest::fmt above is proved to print digest_name)
 #[verifier::external_body]
 fn shim_fmt_digest_open(d: &Digest) -> (r: Vec<u8>)
